@@ -37,6 +37,8 @@ DEEP = [
     ('schedule', 'started', 'add_resources', 'complete', 'complete'),
     ('schedule', 'add_resources', 'started', 'deactivate', 'heartbeat'),
     ('schedule', 'started', 'add_resources', 'add_resources', 'heartbeat'),
+    ('started', 'add_resources', 'heartbeat', 'compact', 'heartbeat', 'compact'),            # second compaction of a key
+    ('started', 'add_resources', 'heartbeat', 'compact_by_date', 'heartbeat', 'compact_by_date'),
 ]
 
 _mods = {}
